@@ -22,11 +22,15 @@ root-queue array and (pointer-sized loads/stores only) anywhere else.  This modu
      executes them on SLane.begin / SLane.gstep, taking at each point the first thread (within a window of the preferred order)
      whose next action is enabled in the model AND has the recorded outcome (was_empty, probe result, lock restart, every dq_state
      value written, pop of last / more, item identity).  The round is reproduced iff every action is consumed and the model ends
-     idle with the recorded dq_state, an empty list and all items started in order.  C01_slanet_replay_reach: whatever the
-     scheduler is given, it only takes steps of SLane (begin / gstep / ostep; ostep = the need_override continuation of a push
-     onto a non-empty list, found missing from the model by this check and added since; override_continuations counts them).
+     idle with the recorded dq_state, an empty list and all items started in order.  This inclusion is established by RUNNING the
+     scheduler (a test); the theorem C01_slanet_replay_reach says only that the scheduler takes steps of SLane (begin / gstep /
+     ostep), i.e. that its end state is reachable, which holds for any action list.  (ostep = the need_override continuation of
+     a push onto a non-empty list, found missing from the model by this check and added since.)
+  5. about one round in five is NESTED: some work items submit to their own queue from inside the callout.  SLane is a flat-client
+     model (no call from inside a callout), so these rounds are flagged, kept out of 2 and 4, and judged by 3 only.
 
 correspond(ctx) returns the usual dict; lib/props/c01.py and c02.py add it as one more part of lanes.merge([...])."""
+import json
 import os
 import re
 
@@ -41,8 +45,16 @@ LEVEL = "proof"
 TRUSTED = [
     "Model/SLaneT.v (hand-written observation automaton) is tied to the source by C01_slanet_sites_match (kinds, fields, memory "
     "orders, call order of the atomic sites of the functions involved, regenerated on every run) and to the running library by the "
-    "in-Coq replay of every recorded thread trace; it is tied to Model/SLane.v by C01_slanet_gstep_tstep / _reach_tstep and by the "
-    "replay of every recorded round on SLane.gstep itself (Model/SLaneR.v, C01_slanet_replay_reach)",
+    "in-Coq replay of every recorded thread trace; it is tied to Model/SLane.v by C01_slanet_gstep_tstep / _ostep_tstep / _reach_tstep "
+    "(SLane's per-thread behaviours are accepted by the automaton) and, in the other direction, only by TESTING: every recorded flat "
+    "round is executed on SLane.begin/gstep/ostep by the scheduler Model/SLaneR.v; that each action was enabled in the model with the "
+    "recorded outcome is established by running that executable scheduler and this driver, not by a theorem: C01_slanet_replay_reach "
+    "says only that whatever the scheduler does ends in a reachable state of SLane (true for any action list)",
+    "FLAT CLIENT: Model/SLane.v (and so SLaneT / SLaneR) has no call from inside a callout: SLane.begin needs an idle thread "
+    "(SLane.v:93-103), so a work item that submits to its own queue (drainer = pusher) is outside the model and outside every "
+    "SLane theorem's 'all interleavings'. The harness exercises that client in about one round out of five; those rounds are judged on "
+    "the library by the API oracle and the dq_state / dq_items_tail value chains only (FIFO, exactly once, no overlap), and are kept "
+    "out of the trace conformance and the global replay",
     "the global replay orders the actions with the recorder's stamps (a global ticket taken right after each operation) corrected by the "
     "exact value chains of dq_state and dq_items_tail; a wrong order can only make the replay fail, never succeed wrongly: the "
     "scheduler checks every action against the model",
@@ -91,12 +103,30 @@ def field_numbers():
     return out
 
 
+_EXE = {}
+HARNESS_TIMEOUT = 300
+
+
+def harness_exe():
+    """build once per process, under a lock: C01 and C02 may run at the same time and both link .cache/bin/c02_slane"""
+    if "exe" not in _EXE:
+        with common.Lock("bin_c02_slane"):
+            exe, msg = common.build_harness("c02_slane", ["c02_slane.c"], whitebox=True, extra=["-I" + common.VERIF + "/harness"])
+        if exe is None:
+            raise RuntimeError("harness build failed: " + msg)
+        _EXE["exe"] = exe
+    return _EXE["exe"]
+
+
 def run_harness(seed, rounds, permille, scale=1):
-    """returns (stdout, None) or (stdout so far, description of how the stress client died)"""
-    exe, msg = common.build_harness("c02_slane", ["c02_slane.c"], whitebox=True, extra=["-I" + common.VERIF + "/harness"])
-    if exe is None:
-        raise RuntimeError("harness build failed: " + msg)
-    r = common.run([exe, str(seed), str(rounds), str(permille), str(scale)], timeout=300)
+    """returns (stdout, None) or (stdout so far, description of how the stress client died).  A wall-clock expiry alone is
+    never reported: the run is repeated once with ten times the limit (the harness's own watchdog is progress-based)."""
+    exe = harness_exe()
+    cmd = [exe, str(seed), str(rounds), str(permille), str(scale)]
+    r = common.run(cmd, timeout=HARNESS_TIMEOUT)
+    if r.returncode == 124:
+        common.log("c01_slane: harness run %s exceeded %d s (load?): repeating it alone with %d s" % (cmd[1:], HARNESS_TIMEOUT, 10 * HARNESS_TIMEOUT))
+        r = common.run(cmd, timeout=10 * HARNESS_TIMEOUT)
     if r.returncode != 0:
         return r.stdout or "", "rc=%s %s" % (r.returncode, (r.stderr or "")[-300:])
     return r.stdout, None
@@ -131,15 +161,20 @@ def parse(text):
     o = [int(x) for x in O[0][1:]]
     lay = {"lane_size": o[0], "state": o[1], "tail": o[2], "head": o[3], "next": o[4], "ref": o[5], "aflags": o[6],
            "root_size": o[7], "nroots": o[8], "roots": o[9], "ENQ": o[10], "DIRTY": o[11], "ANON": o[12], "targetq": o[13]}
-    rounds = []
+    rounds, complete = [], None
     for l in other:
         f = l.split()
+        if f[0] == "X":
+            complete = (int(f[1]), int(f[2]))
         if f[0] != "R":
             continue
         r = Round()
         (r.idx, r.lane, r.kind, r.nthreads, r.nitems, r.wq, r.prio, r.st0, r.st1, r.seq0, r.seq1, r.ran, r.maxrun, r.order_err,
          r.idle, r.root) = [int(x) for x in f[1:17]]
+        r.nested = int(f[17]) if len(f) > 17 else 0
         rounds.append(r)
+    lay["complete"] = complete
+    lay["events_in_dump"] = sum(len(v) for v in per.values())
     return lay, rounds, per
 
 
@@ -397,6 +432,44 @@ def abstract_replay(lay, fn, rd, traces, ticket_item, label):
 # ----------------------------------------------------------------------------------------------------------------------
 # Coq replay
 
+class _TimedOut(Exception):
+    pass
+
+
+def _coq_eval(name, imports, body, timeout, nvals):
+    """one coqc evaluation; file name carries the caller's tag and this process id (concurrent checks share .cache/cases).
+    Raises _TimedOut on a wall-clock expiry (the caller repeats that unit alone with ten times the limit) and RuntimeError on
+    any other failure (non-zero exit, missing output): never a silent pass."""
+    ok, vals, raw = driver.coq_eval("%s_p%d" % (name, os.getpid()), imports, body, timeout=timeout)
+    if not ok and "TIMEOUT after" in raw:
+        raise _TimedOut(name)
+    if not ok or len(vals) != nvals:
+        raise RuntimeError("coq evaluation %s failed (exit ok=%s, %d of %d values): %s" % (name, ok, len(vals), nvals, raw[-2000:]))
+    return vals
+
+
+def _pool(one, chunks, timeout, workers):
+    """run one(chunk, timeout) over the chunks in parallel; a chunk that hit the wall-clock limit is repeated once, alone, with
+    ten times the limit; results in chunk order"""
+    from concurrent.futures import ThreadPoolExecutor
+
+    def guarded(c):
+        try:
+            return one(c, timeout)
+        except _TimedOut:
+            return _TimedOut
+    with ThreadPoolExecutor(max_workers=workers) as ex:
+        res = list(ex.map(guarded, chunks))
+    for i, r in enumerate(res):
+        if r is _TimedOut:
+            common.log("c01_slane: a Coq evaluation exceeded %d s (load?): repeating it alone with %d s" % (timeout, 10 * timeout))
+            try:
+                res[i] = one(chunks[i], 10 * timeout)
+            except _TimedOut:
+                raise RuntimeError("coq evaluation still running after %d s when run alone" % (10 * timeout))
+    return res
+
+
 def _intern_writer():
     nums, combos = {}, {}
 
@@ -427,7 +500,6 @@ def coq_conform(name, jobs, chunk_events=12000, timeout=900, workers=4, abstract
     each job the list of SLane actions SLaneR.abstract reads off the trace: [event index, kind, arg, shape, st, item, early]).
     Big numerals are defined once per file and the (kind, order, field) triples get constructor shortcuts: Coq spends its time
     interpreting numerals, not running the automaton."""
-    from concurrent.futures import ThreadPoolExecutor
     chunks, i = [], 0
     while i < len(jobs):
         part, n = [], 0
@@ -437,7 +509,7 @@ def coq_conform(name, jobs, chunk_events=12000, timeout=900, workers=4, abstract
             i += 1
         chunks.append((i, part))
 
-    def one(arg):
+    def one(arg, tmo):
         ci, part = arg
         z, ev, header = _intern_writer()
         rows = ["({| c_self := %s; c_dq := %s; c_rq := %s; c_floor := %d |}, [%s])" % (
@@ -449,12 +521,10 @@ def coq_conform(name, jobs, chunk_events=12000, timeout=900, workers=4, abstract
         body.append("Eval vm_compute in map (fun '(c, tr) => conform c tr) jobs.")
         if abstract:
             body.append("Eval vm_compute in map (fun '(c, tr) => abstract c tr) jobs.")
-        ok, vals, raw = driver.coq_eval("%s_%d" % (name, ci), IMPORTS + (["SLaneR"] if abstract else []), "\n".join(body) + "\n",
-                                        timeout=timeout)
-        if not ok or len(vals) != (2 if abstract else 1):
-            raise RuntimeError("coq conformance evaluation failed: " + raw[-2000:])
+        vals = _coq_eval("%s_%d" % (name, ci), IMPORTS + (["SLaneR"] if abstract else []), "\n".join(body) + "\n", tmo,
+                         2 if abstract else 1)
         got = [driver.ints(r) for r in re.findall(r"\[([^\[\]]*)\]", vals[0])]
-        if len(got) != len(part):
+        if len(got) != len(part) or any(len(g) < 3 for g in got):
             raise RuntimeError("coq conformance: %d results for %d traces: %s" % (len(got), len(part), vals[0][:500]))
         if not abstract:
             return [(g, None) for g in got]
@@ -464,7 +534,7 @@ def coq_conform(name, jobs, chunk_events=12000, timeout=900, workers=4, abstract
         res = []
         for g, a, job in zip(got, ab, part):
             tr, rows = job[4], []
-            for k in range(0, len(a), 2):
+            for k in range(0, len(a) - 1, 2):
                 i, cde = a[k:k + 2]
                 cde, has_st = divmod(cde, 2)
                 cde, early = divmod(cde, 2)
@@ -482,9 +552,10 @@ def coq_conform(name, jobs, chunk_events=12000, timeout=900, workers=4, abstract
             res.append((g, rows))
         return res
     out = []
-    with ThreadPoolExecutor(max_workers=workers) as ex:
-        for got in ex.map(one, chunks):
-            out += got
+    for got in _pool(one, chunks, timeout, workers):
+        out += got
+    if len(out) != len(jobs):
+        raise RuntimeError("coq conformance: %d results for %d traces" % (len(out), len(jobs)))
     return out
 
 
@@ -575,7 +646,6 @@ def build_schedule(rd, lay, fn, threads):
 
 def coq_replay(name, rounds, window=48, timeout=900, workers=4, chunk_actions=9000):
     """rounds: list of (rb, queues, order); returns the int lists of SLaneR.replay, one per round"""
-    from concurrent.futures import ThreadPoolExecutor
     chunks, i = [], 0
     while i < len(rounds):
         part, n = [], 0
@@ -585,7 +655,7 @@ def coq_replay(name, rounds, window=48, timeout=900, workers=4, chunk_actions=90
             i += 1
         chunks.append((i, part))
 
-    def one(arg):
+    def one(arg, tmo):
         ci, part = arg
         z, _, header = _intern_writer()
         defs, calls, short = [], [], {}
@@ -610,92 +680,146 @@ def coq_replay(name, rounds, window=48, timeout=900, workers=4, chunk_actions=90
         body += [d for (_, d) in short.values()]
         body += defs
         body.append("Eval vm_compute in [%s]." % "; ".join(calls))
-        ok, vals, raw = driver.coq_eval("%s_%d" % (name, ci), IMPORTS + ["SLaneR"], "\n".join(body) + "\n", timeout=timeout)
-        if not ok or len(vals) != 1:
-            raise RuntimeError("coq replay evaluation failed: " + raw[-2000:])
+        vals = _coq_eval("%s_%d" % (name, ci), IMPORTS + ["SLaneR"], "\n".join(body) + "\n", tmo, 1)
         got = [driver.ints(r) for r in re.findall(r"\[([^\[\]]*)\]", vals[0])]
-        if len(got) != len(part):
+        if len(got) != len(part) or any(len(g) < 10 for g in got):
             raise RuntimeError("coq replay: %d results for %d rounds" % (len(got), len(part)))
         return got
     out = []
-    with ThreadPoolExecutor(max_workers=workers) as ex:
-        for got in ex.map(one, chunks):
-            out += got
+    for got in _pool(one, chunks, timeout, workers):
+        out += got
+    if len(out) != len(rounds):
+        raise RuntimeError("coq replay: %d results for %d rounds" % (len(out), len(rounds)))
     return out
 
 
-def correspond(ctx, tag="c01_slane"):
-    fn = field_numbers()
-    if ctx.tier == "quick":
-        plan = [(0, 30, 1), (200, 30, 1), (400, 30, 1), (200, 12, 3)]
+def plan_for(tier, seed):
+    if tier == "quick":
+        base = [(0, 30, 1), (200, 30, 1), (400, 30, 1), (200, 12, 3)]
     else:
-        plan = [(pm, 40, sc) for pm in (0, 200, 400) for sc in (1, 1, 3)] + [(300, 40, 2), (100, 40, 1), (400, 20, 4)]
-    fails, mism, jobs, meta, dist, samples = [], [], [], [], {}, []
-    info_tot, st_tot, kinds, shapes, rinfo = {}, {}, {}, set(), {}
-    nrounds = nitems = 0
-    for i, (pm, rounds, scale) in enumerate(plan):
-        seed = ctx.seed * 1000 + i
-        label = "seed%d:pm%d:r%d:s%d" % (seed, pm, rounds, scale)
+        base = [(pm, 40, sc) for pm in (0, 200, 400) for sc in (1, 1, 3)] + [(300, 40, 2), (100, 40, 1), (400, 20, 4)]
+    return [[seed * 1000 + i, pm, rounds, scale] for i, (pm, rounds, scale) in enumerate(base)]
+
+
+def label_of(entry):
+    return "seed%d:pm%d:r%d:s%d" % tuple(entry)
+
+
+def judge(plan, tag, fn):
+    """execute the harness runs of `plan` ([[seed, permille, rounds, scale]]) against the current build and judge them: API oracle and
+    abstract replay on every round, trace conformance and global replay on the flat rounds.  Every failure / mismatch carries
+    `rerun` = the plan entries that reproduce it with the same parameters.  Returns a dict."""
+    fails, mism, jobs, meta, dist = [], [], [], [], {}
+    info_tot, st_tot, kinds, shapes, rinfo, samples = {}, {}, {}, set(), {}, []
+    cnt = {"runs": 0, "rounds": 0, "rounds_requested": 0, "flat_rounds": 0, "nested_rounds": 0, "items": 0, "nested_round_items": 0,
+           "events_in_dumps": 0}
+
+    def mm(what, detail, entries):
+        d = dict(detail)
+        d["rerun"] = [list(e) for e in entries]
+        mism.append({"what": what, "detail": d, "rerun": d["rerun"]})
+    for entry in plan:
+        seed, pm, rounds, scale = entry
+        label = label_of(entry)
+        cnt["runs"] += 1
+        cnt["rounds_requested"] += rounds
         text, died = run_harness(seed, rounds, pm, scale)
         if died:
-            fails.append({"key": "slane:%s:crash" % label, "what": "the stress client died or hung in run %s: %s" % (label, died), "label": label})
+            fails.append({"key": "slane:%s:crash" % label, "what": "the stress client died or hung in run %s: %s" % (label, died),
+                          "label": label, "rerun": [list(entry)]})
             if not text.startswith("O "):
                 continue
-        lay, rds, per = parse(text)
+        try:
+            lay, rds, per = parse(text)
+        except Exception as ex:                          # truncated / empty output
+            mm("the stress client's output cannot be parsed (empty or truncated dump)", {"run": label, "error": str(ex)[:300]}, [entry])
+            continue
+        cnt["events_in_dumps"] += lay["events_in_dump"]
+        stranded = any(not rd.idle for rd in rds)
+        if not died and (lay["complete"] is None or lay["complete"] != (len(rds), lay["events_in_dump"])):
+            mm("the recorder dump is incomplete (no end mark, or the end mark disagrees with the rounds / events received)",
+               {"run": label, "end_mark": lay["complete"], "rounds_seen": len(rds), "events_seen": lay["events_in_dump"]}, [entry])
+        if len(rds) != rounds and not stranded and not died:
+            mm("the stress client produced fewer rounds than requested without reporting why",
+               {"run": label, "rounds_requested": rounds, "rounds_seen": len(rds)}, [entry])
         for rd in rds:
             traces, ticket_item, info, raw = normalise(lay, fn, rd, per)
-            nrounds += 1
-            nitems += rd.nitems
+            cnt["rounds"] += 1
+            cnt["items"] += rd.nitems
             kinds["queue_kind_%d" % rd.kind] = kinds.get("queue_kind_%d" % rd.kind, 0) + 1
             kinds["threads_%d" % rd.nthreads] = kinds.get("threads_%d" % rd.nthreads, 0) + 1
             for k, v in info.items():
                 info_tot[k] = info_tot.get(k, 0) + v
             f, st = abstract_replay(lay, fn, rd, traces, ticket_item, label)
+            for x in f:
+                x["rerun"] = [list(entry)]
+                x["nested"] = rd.nested
             fails += f
             for k, v in st.items():
                 st_tot[k] = st_tot.get(k, 0) + v
             if rd.st0 != (4095 << 41) + lay["ANON"] and rd.st0 != (4095 << 41):
-                mism.append({"what": "a fresh serial queue's dq_state is not SLane.init_state", "detail": {"st0": rd.st0, "round": rd.idx}})
+                mm("a fresh serial queue's dq_state is not SLane.init_state", {"run": label, "st0": rd.st0, "round": rd.idx}, [entry])
+            if rd.nested:
+                # items of this round submit to their own queue from inside the callout: outside the flat client of SLane
+                # (SLane.begin needs an Idle thread); oracle and chain checks above only
+                cnt["nested_rounds"] += 1
+                cnt["nested_round_items"] += rd.nitems
+                continue
+            cnt["flat_rounds"] += 1
             rq = lay["roots"] + rd.root * lay["root_size"] if rd.root >= 0 else 0
-            rinfo[(label, rd.idx)] = (rd, lay)
+            rinfo[(label, rd.idx)] = (rd, lay, entry)
             for thr, tr in sorted(traces.items()):
                 tid = raw[thr][0].tid & OWNER_MASK
                 jobs.append((tid, rd.lane, rq, 0, tr))
-                meta.append((label, rd.idx, thr, seed, pm, rounds, scale))
-    res = coq_conform(tag + "_conf", jobs, abstract=True)
+                meta.append((label, rd.idx, thr, entry))
+    res = coq_conform(tag + "_conf", jobs, abstract=True) if jobs else []
     accepted = {}
     for (row, rows), job, m in zip(res, jobs, meta):
-        idx, idle, cnt = row[0], row[1], row[2:]
+        idx, idle, tagcnt = row[0], row[1], row[2:]
         accepted.setdefault((m[0], m[1]), []).append((idx == -1 and idle == 1, job[0], job[4], rows))
-        for t, c in enumerate(cnt):
+        for t, c in enumerate(tagcnt):
             if c and t in TAGS:
                 dist[TAGS[t]] = dist.get(TAGS[t], 0) + c
-        shapes.add(tuple(1 if c else 0 for c in cnt))
+        shapes.add(tuple(1 if c else 0 for c in tagcnt))
         if idx != -1 or idle != 1:
             names = {job[1]: "lane", job[2]: "root"}
             tr = job[4]
             lo = max(0, (idx if idx >= 0 else len(tr)) - 12)
-            mism.append({"what": "a recorded thread trace of the library is not accepted by the serial-lane thread automaton "
-                                 "(SLaneT.tstep): the implementation took a step, a memory order or wrote a dq_state value the model does not have",
-                         "detail": {"run": m[0], "round": m[1], "thread": m[2], "self": job[0], "rejected_at": idx, "ended_idle": idle,
-                                    "events": len(tr), "around": [e.brief(names) for e in tr[lo:lo + 16]]}})
+            mm("a recorded thread trace of the library is not accepted by the serial-lane thread automaton (SLaneT.tstep): the "
+               "implementation took a step, a memory order or wrote a dq_state value the model does not have",
+               {"run": m[0], "round": m[1], "thread": m[2], "self": job[0], "rejected_at": idx, "ended_idle": idle, "events": len(tr),
+                "around": [e.brief(names) for e in tr[lo:lo + 16]]}, [m[3]])
     # the whole round as a run of the global model
     rp = {"rounds_replayed_as_SLane_runs": 0, "override_continuations_replayed": 0, "model_actions_replayed": 0,
           "rounds_not_replayed_trace_rejected": 0}
     todo, tkeys = [], []
     for key, ths in sorted(accepted.items()):
-        rd, lay = rinfo[key]
+        rd, lay, entry = rinfo[key]
         if not all(a for (a, _, _, _) in ths):
-            rp["rounds_not_replayed_trace_rejected"] += 1
+            rp["rounds_not_replayed_trace_rejected"] += 1          # the rejection itself is already a mismatch
             continue
         sch = build_schedule(rd, lay, fn, [(tid, tr, rows) for (_, tid, tr, rows) in ths])
         if sch is None:
+            mm("a recorded round could not be put in order for the global replay (its dq_state / dq_items_tail operations do not chain)",
+               {"run": key[0], "round": key[1]}, [entry])
             continue
         queues, order, outside = sch
         todo.append(((rd.st0 >> 36) & 3, queues, order))
         tkeys.append((key, outside, len(order)))
-    for (key, outside, nact), r in zip(tkeys, coq_replay(tag + "_replay", todo) if todo else []):
-        rd, lay = rinfo[key]
+    results = coq_replay(tag + "_replay", todo) if todo else []
+    # The preferred order comes from the recorder's stamps, which a preempted thread takes late: under machine load the
+    # first-fit scheduler with a window of 48 entries can be led into a dead end.  A round it does not consume is replayed
+    # once more, alone, with every thread a candidate at every step (window = whole order); only that verdict is reported.
+    again = [k for k, r in enumerate(results) if r[1] != 0]
+    if again:
+        rp["rounds_replayed_on_second_attempt_full_window"] = 0
+        second = coq_replay(tag + "_replay2", [todo[k] for k in again], window=1000000, workers=1)
+        for k, r in zip(again, second):
+            if r[1] == 0:
+                rp["rounds_replayed_on_second_attempt_full_window"] += 1
+            results[k] = r
+    for (key, outside, nact), r in zip(tkeys, results):
+        rd, lay, entry = rinfo[key]
         done, left, stv, rootq, llen, nextid, idle, nstarted, fifo, stuck = r[:10]
         good = (left == 0 and stv == rd.st1 and rootq == 0 and llen == 0 and nextid == rd.nitems and idle == 1 and
                 nstarted == rd.nitems and fifo == 1)
@@ -704,69 +828,134 @@ def correspond(ctx, tag="c01_slane"):
             rp["override_continuations_replayed"] += outside
             rp["model_actions_replayed"] += nact
         else:
-            mism.append({"what": "a recorded round is not reproduced as a run of the global model SLane (SLaneR.sched: every thread's "
-                                 "actions in an order compatible with the recording, each enabled in the model with the recorded outcome)",
-                         "detail": {"run": key[0], "round": key[1], "actions": nact, "executed": done, "left": left,
-                                    "stuck_thread": stuck, "model_dq_state": stv, "recorded_final_dq_state": rd.st1, "rootq": rootq,
-                                    "list_length": llen, "nextid": nextid, "items": rd.nitems, "all_idle": idle,
-                                    "started": nstarted, "fifo": fifo, "override_continuations": outside}})
+            mm("a recorded round is not reproduced as a run of the global model SLane (SLaneR.sched: every thread's actions in an "
+               "order compatible with the recording, each enabled in the model with the recorded outcome)",
+               {"run": key[0], "round": key[1], "actions": nact, "executed": done, "left": left, "stuck_thread": stuck,
+                "model_dq_state": stv, "recorded_final_dq_state": rd.st1, "rootq": rootq, "list_length": llen, "nextid": nextid,
+                "items": rd.nitems, "all_idle": idle, "started": nstarted, "fifo": fifo, "override_continuations": outside}, [entry])
+    for job in jobs[:2] + [j for j in jobs if any(e.kind == 10 for e in j[4])][:1]:
+        names = {job[1]: "lane", job[2]: "root"}
+        samples.append({"self": job[0], "trace": [e.brief(names) for e in job[4][:60]]})
+    cnt["thread_traces"] = len(jobs)
+    cnt["events_replayed_in_coq"] = sum(len(j[4]) for j in jobs)
+    return {"fails": fails, "mism": mism, "dist": dist, "cnt": cnt, "kinds": kinds, "info": info_tot, "st": st_tot, "rp": rp,
+            "shapes": shapes, "samples": samples}
+
+
+def correspond(ctx, tag="c01_slane"):
+    fn = field_numbers()
+    plan = plan_for(ctx.tier, ctx.seed)
+    try:
+        j = judge(plan, tag, fn)
+    except RuntimeError as ex:          # a Coq evaluation or the harness build failed: a broken tie, with what to re-run
+        return {"evaluations": 0, "distinct_nontrivial": 0, "rule": "", "samples": [], "distribution": {},
+                "mismatches": [{"what": "the serial-lane conformance could not be evaluated", "detail": {"error": str(ex)[-2500:],
+                                "rerun": plan}, "rerun": plan}], "failures": []}
+    fails, mism, dist, cnt, rp = j["fails"], j["mism"], j["dist"], j["cnt"], j["rp"]
+    # floors: what was actually measured (not what was requested)
+    if cnt["flat_rounds"] == 0 or cnt["thread_traces"] == 0 or cnt["events_replayed_in_coq"] == 0:
+        mism.append({"what": "the serial-lane conformance recorded nothing (no round / no thread trace / no event): hook compiled out, "
+                             "empty dump or every run lost", "detail": {"counts": cnt, "rerun": plan}, "rerun": plan})
+    if rp["rounds_replayed_as_SLane_runs"] + rp["rounds_not_replayed_trace_rejected"] < cnt["flat_rounds"] and not any(
+            "global model" in m["what"] or "put in order" in m["what"] for m in mism):
+        mism.append({"what": "some flat rounds were neither replayed on the global model nor reported", "detail": {"counts": cnt,
+                     "replay": rp, "rerun": plan}, "rerun": plan})
     never = [TAGS[t] for t in REQUIRED if not dist.get(TAGS[t])]
     for b in never:
-        mism.append({"what": "branch of the serial-lane automaton never exercised by the stress runs", "detail": b})
+        mism.append({"what": "branch of the serial-lane automaton never exercised by the stress runs", "detail": {"branch": b, "rerun": plan},
+                     "rerun": plan})
     notes = []
     absent = [TAGS[t] for t in sorted(TAGS) if not dist.get(TAGS[t])]
     if absent:
         notes.append("branches of SLaneT.tstep not taken in this run: " + ", ".join(absent))
     notes.append("need_override continuation of a push onto a non-empty list (_dispatch_lane_push queue.c:5077-5088, SLane.ostep / "
                  "PA_oprobe / PA_owake): %s" % {TAGS[t]: dist.get(TAGS[t], 0) for t in OVERRIDE_TAGS})
-    for job in jobs[:2] + [j for j in jobs if any(e.kind == 10 for e in j[4])][:1]:
-        names = {job[1]: "lane", job[2]: "root"}
-        samples.append({"self": job[0], "trace": [e.brief(names) for e in job[4][:60]]})
+    notes.append("%d rounds (%d items) had work items submitting to their own queue from inside the callout: Model/SLane.v is a flat-client "
+                 "model (SLane.begin needs an idle thread), so those rounds are judged by the API oracle and the value chains only, not by "
+                 "the automaton / the global replay" % (cnt["nested_rounds"], cnt["nested_round_items"]))
     dist_all = dict(dist)
-    dist_all.update({"rounds": nrounds, "items": nitems, "thread_traces": len(jobs), "events_replayed_in_coq": sum(len(j[4]) for j in jobs)})
-    dist_all.update(kinds)
-    dist_all.update(info_tot)
-    dist_all.update(st_tot)
+    dist_all.update(cnt)
+    dist_all.update(j["kinds"])
+    dist_all.update(j["info"])
+    dist_all.update(j["st"])
     dist_all.update(rp)
-    dist_all["branches_never_taken"] = [TAGS[t] for t in sorted(TAGS) if not dist.get(TAGS[t])]
-    return {"evaluations": len(jobs), "distinct_nontrivial": len(shapes),
+    dist_all["branches_never_taken"] = absent
+    return {"evaluations": cnt["thread_traces"], "distinct_nontrivial": len(j["shapes"]),
             "rule": "rounds of one serial queue (default target / explicit global queue at 6 priorities / QoS attribute) flooded with "
                     "dispatch_async_f from 1..8 threads, submitters pausing so that pushes meet an empty list, a draining list and an "
-                    "unlocking drainer, schedule perturbation 0/20/40 % inside the library's atomic operations; every per-thread "
-                    "recording (lane words, item do_next by value, root-queue push) is replayed through SLaneT.tstep inside Coq "
-                    "(each dq_state compare-exchange must write what the generated body computes from the value read); the successful "
-                    "dq_state transitions and the dq_items_tail operations are put in their exact global order (value chains) and the run "
-                    "is judged against SLane's observable predictions (FIFO in tail-exchange order, no overlap, callouts inside a lock "
-                    "interval, ENQUEUED set once per root push and cleared once per lock, every word value free or drain-locked, all items "
-                    "ran once when idle); every round is then replayed as a run of the global model (SLaneR.sched on SLane.gstep: each "
-                    "action enabled in the model with the recorded outcome, final model state = recorded final state); "
-                    "distinct = distinct sets of automaton branches taken by a thread trace",
-            "samples": samples, "distribution": dist_all, "traces_validated_against_impl": len(jobs), "notes": notes,
+                    "unlocking drainer, schedule perturbation 0/20/40 % inside the library's atomic operations. On EVERY round: API oracle "
+                    "(each item once, no overlap, per-submitter order) and the exact value chains of dq_state / dq_items_tail judged "
+                    "against SLane's observable predictions (FIFO in tail-exchange order, callouts inside a lock interval, ENQUEUED set once "
+                    "per root push and cleared once per lock, every word value free or drain-locked, all items ran once when idle). On the "
+                    "FLAT rounds (about 4 of 5; in the others some items re-submit to their own queue from inside the callout, which the "
+                    "flat-client model SLane does not cover): every per-thread recording (lane words, item do_next by value, root-queue push) "
+                    "is replayed through SLaneT.tstep inside Coq (each dq_state compare-exchange must write what the generated body computes "
+                    "from the value read), and the round is replayed on SLane.begin/gstep/ostep by the executable scheduler SLaneR.sched "
+                    "(each action must be enabled in the model with the recorded outcome; final model state = recorded final state): that "
+                    "trace inclusion is established by running the scheduler, not by a theorem (C01_slanet_replay_reach only says its end "
+                    "state is reachable). evaluations = thread traces actually replayed; distinct = distinct sets of automaton branches",
+            "samples": j["samples"], "distribution": dist_all, "traces_validated_against_impl": cnt["thread_traces"], "notes": notes,
             "mismatches": mism[:20], "failures": fails[:20]}
 
 
 def replay(ctx, obj):
-    fn = field_numbers()
+    """re-execute the recorded runs (same seed, perturbation, round count, scale) against the current build and judge them again.
+    1: something is still wrong in those runs; 0: does not reproduce; 2: nothing in the file can be re-executed."""
+    entries, others, seen = [], [], set()
+
+    def take(x):
+        for e in (x.get("rerun") or []):
+            if tuple(e) not in seen and len(e) == 4:
+                seen.add(tuple(e))
+                entries.append([int(v) for v in e])
+        return bool(x.get("rerun"))
     for f in obj.get("failures", []):
-        if not str(f.get("key", "")).startswith("slane:"):
-            continue
-        print("recorded failure:", f.get("what"))
-        lab = f.get("label", "")
-        m = re.match(r"seed(\d+):pm(\d+):r(\d+):s(\d+)", lab)
-        if not m:
-            continue
-        seed, pm, rounds, scale = [int(x) for x in m.groups()]
-        text, died = run_harness(seed, rounds, pm, scale)
-        if died:
-            print("   re-run: the stress client died:", died)
-            continue
-        lay, rds, per = parse(text)
-        n = 0
-        for rd in rds:
-            traces, ticket_item, info, raw = normalise(lay, fn, rd, per)
-            f2, _ = abstract_replay(lay, fn, rd, traces, ticket_item, lab)
-            n += len(f2)
-            for x in f2[:3]:
-                print("   re-run:", x["what"])
-        print("re-run of %s: %d failures" % (lab, n))
-    return 1
+        if str(f.get("key", "")).startswith("slane:") or f.get("part") == "slane":
+            print("recorded failure:", f.get("what"))
+            if not take(f):
+                m = re.match(r"seed(\d+):pm(\d+):r(\d+):s(\d+)", str(f.get("label", "")))
+                if m:
+                    take({"rerun": [[int(v) for v in m.groups()]]})
+                else:
+                    others.append(f.get("what"))
+    for b in obj.get("broken", []):
+        d = b.get("detail") if isinstance(b, dict) else None
+        if isinstance(d, dict) and (d.get("rerun") or (isinstance(d.get("detail"), dict) and d["detail"].get("rerun"))):
+            print("recorded broken tie:", d.get("what"))
+            take(d if d.get("rerun") else d["detail"])
+        else:
+            others.append(b)
+    for o in others:
+        print("no longer checked (not re-executable from this file; only a full ./check re-establishes it):", str(o)[:600])
+    if not entries:
+        print("nothing in this file can be re-executed by the serial-lane conformance")
+        return 2
+    fn = field_numbers()
+    try:
+        j = judge(entries, "replay_slane", fn)
+    except RuntimeError as ex:
+        print("re-execution failed:", str(ex)[-1500:])
+        return 2
+    bad = 0
+    for f in j["fails"][:10]:
+        print("REPRODUCES (failure):", f["what"])
+        bad += 1
+    for m in j["mism"][:10]:
+        print("REPRODUCES (broken tie):", m["what"], json.dumps(m["detail"], default=str)[:700])
+        bad += 1
+    # recorded 'branch never exercised' / 'recorded nothing' entries are judged on the re-executed plan as well
+    rec = [b.get("detail", {}).get("detail", {}) for b in obj.get("broken", []) if isinstance(b, dict) and isinstance(b.get("detail"), dict)]
+    for d in rec:
+        br = d.get("branch") if isinstance(d, dict) else None
+        if br and not j["dist"].get(br):
+            print("REPRODUCES (broken tie): branch still never exercised:", br)
+            bad += 1
+    if j["cnt"]["rounds"] == 0:
+        print("REPRODUCES: the re-executed runs recorded nothing")
+        bad += 1
+    print("re-executed %d run(s): %d rounds, %d thread traces, %d rounds replayed on SLane" % (
+        j["cnt"]["runs"], j["cnt"]["rounds"], j["cnt"]["thread_traces"], j["rp"]["rounds_replayed_as_SLane_runs"]))
+    if bad:
+        return 1
+    print("does not reproduce")
+    return 0
